@@ -124,9 +124,9 @@ Proof.
   rewrite Z.shiftr_div_pow2 by lia. change (2 ^ 9) with 512. lia.
 Qed.
 
-(* a unit of at least MTU bytes, AddDONL off: whatever was buffered is flushed, then >= 2 FUs *)
+(* a unit of more than MTU bytes, AddDONL off: whatever was buffered is flushed, then >= 2 FUs *)
 Theorem fu_unit_lossless mtu st b h0 h1 body : 4 <= mtu -> h5_donl_on st = false ->
-  buf_ok mtu false b -> 0 <= h0 < 128 -> 0 <= h1 < 256 -> mtu <= zlen (h0 :: h1 :: body) ->
+  buf_ok mtu false b -> 0 <= h0 < 256 -> 0 <= h1 < 256 -> mtu < zlen (h0 :: h1 :: body) ->
   exists st1 out1 fs cs,
     h5_nalu mtu st b (h0 :: h1 :: body) = Ok (st1, mkH5Buf [] 0, out1 ++ fs) /\
     h5_flush st b = Ok (st1, out1) /\
@@ -137,14 +137,39 @@ Proof.
   pose proof (zlen_nonneg body) as Hzb.
   replace (1 + (1 + zlen body) <? 2) with false by lia.
   replace (1 + (1 + zlen body) + 2 + 0 <=? mtu) with false by lia.
-  replace ((mtu - (3 + 0) <=? 0) || (zlen body =? 0)) with false by lia.
+  replace (zlen body =? 0) with false by lia.
+  replace (zlen body <=? mtu - (3 + 0) + 1) with false by lia.
+  replace (mtu - (3 + 0) <=? 0) with false by lia.
   rewrite <- Hd in Hb. destruct (h5_flush_ok mtu st b Hb) as (st1 & out1 & Hfl & _ & Hd1 & _). rewrite Hfl.
   rewrite Hd in Hd1.
   destruct (h5_fus_spec (S (length body)) st1 (mtu - (3 + 0)) h0 h1 (nh_type (Z.lor (Z.shiftl h0 8) h1)) (zlen body) body
               Hd1 ltac:(lia) ltac:(lia) ltac:(lia) ltac:(lia)) as (fs & cs & Hrun & Hrel & Hcat & Hall & Hne).
-  replace (zlen body <=? mtu - (3 + 0)) with false by lia.
   rewrite Hrun. rewrite Z.eqb_refl in Hrel. rewrite nh_type_of_bytes in Hrel by lia.
   exists st1, out1, fs, cs. split; [reflexivity|]. split; [reflexivity|]. split; [exact Hrel|]. split; [exact Hcat|].
   split; [eapply Forall_impl; [|exact Hall]; cbv beta; intros; lia|].
   inversion Hrel as [|first c fs' cs' Hne' Hrel' Hf]; subst. destruct cs'; [congruence|]. cbn [length]. lia.
+Qed.
+
+(* "F / layer id / TID preserved": the payload header of every fragment reads, through the header
+   accessors, the F bit, layer id and TID of the fragmented unit, and type 49 - for all 2^16 headers *)
+Definition fu_fields_ok (h0 h1 : Z) : bool :=
+  let hdr := h0 * 256 + h1 in
+  let fuhdr := fu_b0 h0 * 256 + h1 in
+  Bool.eqb (nh_f fuhdr) (nh_f hdr) && (nh_layer_id fuhdr =? nh_layer_id hdr) &&
+  (nh_tid fuhdr =? nh_tid hdr) && (nh_type fuhdr =? 49).
+
+Lemma fu_fields_sweep : forallb (fun h0 => forallb (fu_fields_ok h0) (zr 256)) (zr 256) = true.
+Proof. vm_compute. reflexivity. Qed.
+
+Theorem fu_header_preserves h0 h1 : 0 <= h0 < 256 -> 0 <= h1 < 256 ->
+  let hdr := h0 * 256 + h1 in
+  let fuhdr := fu_b0 h0 * 256 + h1 in
+  nh_f fuhdr = nh_f hdr /\ nh_layer_id fuhdr = nh_layer_id hdr /\ nh_tid fuhdr = nh_tid hdr /\ nh_type fuhdr = 49.
+Proof.
+  intros H0 H1 hdr fuhdr.
+  pose proof (proj1 (forallb_forall _ _) fu_fields_sweep h0 (in_zr 256 h0 ltac:(lia))) as Hs. cbv beta in Hs.
+  pose proof (proj1 (forallb_forall _ _) Hs h1 (in_zr 256 h1 ltac:(lia))) as Hs1.
+  unfold fu_fields_ok in Hs1. fold hdr fuhdr in Hs1.
+  apply andb_prop in Hs1 as [Hs1 Ht]. apply andb_prop in Hs1 as [Hs1 Htid]. apply andb_prop in Hs1 as [Hf Hl].
+  apply eqb_prop in Hf. repeat split; [exact Hf|lia|lia|lia].
 Qed.
